@@ -307,6 +307,9 @@ func snapshotMode(sb *strings.Builder, m protoreflect.Message, mode int) {
 		if eqkey {
 			u = groupUnknown(u)
 		}
+		if mode == 3 {
+			u = NormUnknownRecords(u)
+		}
 		if mode == 2 {
 			u = NormUnknownTags(u)
 		}
@@ -322,6 +325,41 @@ func SnapshotNorm(m protoreflect.Message) string {
 	var sb strings.Builder
 	snapshotMode(&sb, m, 2)
 	return sb.String()
+}
+
+// SnapshotCanon is Snapshot with unknown fields compared as records (number,
+// wire type, payload): tags and the length prefixes of length-delimited
+// records are re-encoded minimally, the payload bytes are kept.
+func SnapshotCanon(m protoreflect.Message) string {
+	var sb strings.Builder
+	snapshotMode(&sb, m, 3)
+	return sb.String()
+}
+
+// NormUnknownRecords re-encodes the tag and, for length-delimited records,
+// the length prefix of each top-level record minimally.
+func NormUnknownRecords(u []byte) []byte {
+	var out []byte
+	b := u
+	for len(b) > 0 {
+		num, typ, tn := protowire.ConsumeTag(b)
+		if tn < 0 {
+			return u
+		}
+		n := protowire.ConsumeFieldValue(num, typ, b[tn:])
+		if n < 0 {
+			return u
+		}
+		out = protowire.AppendTag(out, num, typ)
+		if typ == protowire.BytesType {
+			v, _ := protowire.ConsumeBytes(b[tn:])
+			out = protowire.AppendBytes(out, v)
+		} else {
+			out = append(out, b[tn:tn+n]...)
+		}
+		b = b[tn+n:]
+	}
+	return out
 }
 
 // NormUnknownTags re-encodes the tag of each top-level record minimally.
